@@ -936,6 +936,19 @@ class Models(object):
             path.assume_def([r], [z3.Length(r) == z3.Length(s.t)])
             path.heap[('g', 'case', path.fresh())] = (name, s, mk(r))
             return [(path, mk(r))]
+        if name == 'format' and any(isinstance(a, VUnion) for a in args):
+            # resolve guarded alternatives first (one outcome per feasible combination)
+            outs = [(path, [])]
+            for a in args:
+                nxt = []
+                for p_, acc in outs:
+                    for p2, x in ex.split(p_, a):
+                        nxt.append((p2, acc + [x]))
+                outs = nxt
+            res = []
+            for p_, aa in outs:
+                res.extend(self.str_method(ex, p_, s, name, aa, kw))
+            return res
         if name == 'format':
             ok, c = concrete_of(s)
             if ok and c.count('{}') == c.count('{') and c.count('{}') == len(args) >= 1 and all(isinstance(a, VStr) for a in args) and not kw:
